@@ -10,6 +10,9 @@
    the origin on the same addresses, first reports the queue rows and parses the WARC files left behind, then
    crawls until the queue is drained or idle.
 3. TLC (C04_Mon) checks the concatenated traces of both runs.
+4. TLC (TraceC04) validates the same traces against LocalQueue.tla itself: every claim / push / take / finish /
+   delete / kill / stop / restart must be the model's action on the model's state, and the rows the second process
+   finds in lq.db must be the model's rows (SPEC-DRIFT otherwise).
 """
 import os
 import subprocess
@@ -80,12 +83,19 @@ def run(ctx):
         traces.append((mode, cat, p2.returncode, p2.stderr))
     if ctx.replay:
         traces = [("replay", ctx.replay, 0, "")]
+    nimpl = 0
     for mode, cat, rc2, err2 in traces:
         events = vf.read_ndjson(cat)
         if not any(e["ev"] == "run.end" for e in events):
             ctx.report("the restarted crawler died (%s): %s" % (mode, " ".join((err2 or "").split())[-300:]), replay_src=cat, tag="crash", key="restarted process died")
             continue
-        mon = ctx.validate("C04_Mon", "C04_mon.cfg", cat, name="mon-" + mode.replace(":", "_"))
+        impl = ctx.validate("TraceC04", "C04_trace.cfg", cat, name="impl-" + mode.replace(":", "_").replace("+", "_"))
+        nimpl += 1
+        if impl["hwm"] < impl["total"] or "ModelInvariants is violated" in impl["out"]:
+            ctx.note_drift("case %s: event %d (%s) is not a step of LocalQueue.tla" % (mode, impl["hwm"] + 1, events[min(impl["hwm"], len(events) - 1)]["ev"]), cat)
+        for dft in impl["drift"][:3]:
+            ctx.note_drift("case %s: %s differ from the model's rows" % (mode, dft["why"]), cat)
+        mon = ctx.validate("C04_Mon", "C04_mon.cfg", cat, name="mon-" + mode.replace(":", "_").replace("+", "_"))
         if mon["hwm"] < mon["total"]:
             raise vf.Inconclusive("C04_Mon stopped at line %d of %d" % (mon["hwm"], mon["total"]))
         phase2 = False
